@@ -9,3 +9,4 @@ pub mod oracle;
 pub mod runner;
 pub mod rrdpview;
 pub mod hooks;
+pub mod remote;
